@@ -55,7 +55,7 @@ func getOperatorPrecedence
   ensures power-binds-tightest: op == "^" ==> result == 7
 
 func compareFloats
-  props C06
+  props C06 C13
   option safety
   ensures known-operators-decide-by-the-numeric-order: cmpKnown(strings.ToUpper(operator)) ==> result1 == nil && (result0 <==> cmpNum(strings.ToUpper(operator), left, right))
   ensures anything-else-is-an-error: !cmpKnown(strings.ToUpper(operator)) ==> result1 != nil
@@ -69,7 +69,7 @@ func compareStrings
   ensures anything-else-is-an-error: !cmpKnown(strings.ToUpper(operator)) && strings.ToUpper(operator) != "LIKE" ==> result1 != nil
 
 func compareValues
-  props C06
+  props C06 C13
   option safety
   ensures a-null-operand-makes-a-comparison-not-true: (left == nil || right == nil) && strings.ToUpper(operator) != "IS" && strings.ToUpper(operator) != "IS NOT" ==> !result0 && result1 == nil
   ensures is-compares-nullness: (left == nil || right == nil) && strings.ToUpper(operator) == "IS" ==> result1 == nil && (result0 <==> (left == nil && right == nil))
@@ -77,13 +77,13 @@ func compareValues
   ensures number-against-text-cannot-be-ordered: left != nil && right != nil && second(convertToFloatSafe(left)) != second(convertToFloatSafe(right)) && (strings.ToUpper(operator) == ">" || strings.ToUpper(operator) == "<" || strings.ToUpper(operator) == ">=" || strings.ToUpper(operator) == "<=") ==> result1 != nil
 
 func compareValuesForEquality
-  props C06
+  props C06 C13
   option safety
   ensures null-equals-only-null: (left == nil || right == nil) ==> (result <==> (left == nil && right == nil))
   ensures numbers-compare-numerically: left != nil && right != nil && second(convertToFloatSafe(left)) && second(convertToFloatSafe(right)) ==> (result <==> convertToFloatSafe(left) == convertToFloatSafe(right))
 
 func compareValuesWithNullForEquality
-  props C06
+  props C06 C13
   option safety
   ensures null-equals-only-null: (leftIsNull || rightIsNull) ==> (result <==> (leftIsNull && rightIsNull))
 @*/
@@ -94,16 +94,16 @@ func compareValuesWithNullForEquality
 // Frame: evaluation reads the expression tree and the row and writes neither (assumed for the extern evaluators,
 // proved for the functions under contract).
 extern evaluateNode
-  props C06
+  props C06 C13
 
 extern evaluateNodeValue
-  props C06
+  props C06 C13
 
 extern evaluateBoolNode
-  props C06
+  props C06 C13
 
 func evaluateOperatorNode
-  props C06
+  props C06 C13
   option safety
   requires node != nil
   atreturn sum: result1 == nil && !isComparisonOperator(node.Value) && node.Value == "+" ==> result0 == left + right
@@ -113,7 +113,7 @@ func evaluateOperatorNode
   atreturn comparison-yields-one-or-zero: result1 == nil && isComparisonOperator(node.Value) ==> result0 == 1.0 || result0 == 0.0
 
 func evaluateOperatorValue
-  props C06
+  props C06 C13
   option safety
   requires node != nil
   atreturn a-null-operand-makes-the-arithmetic-result-null: (leftIsNull || rightIsNull) && result1 == nil && strings.ToUpper(node.Value) != "IS" && strings.ToUpper(node.Value) != "IS NOT" && !isLogicalOperator(node.Value) && !isComparisonOperator(node.Value) ==> result0 == nil
@@ -124,10 +124,10 @@ func evaluateOperatorValue
   atreturn operands-are-converted-by-the-shared-rule: leftOk ==> leftFloat == convertToFloatSafe(left)
 
 extern evaluateNodeValueWithNull
-  props C06
+  props C06 C13
 
 func evaluateNodeWithNull
-  props C06
+  props C06 C13
   option safety
   ensures the-null-node-is-null: node == nil ==> result1 && result2 == nil
   atreturn a-null-operand-makes-the-arithmetic-result-null: node != nil && node.Type == TypeOperator && !isComparisonOperator(node.Value) && result2 == nil && (leftIsNull__2 || rightIsNull__2) ==> result1
@@ -178,7 +178,7 @@ func evaluateCaseExpressionValueWithNull
 /*@
 // ---------------------------------------------------------------- C06: a built-in is executed only on arguments its Validate accepted
 func evaluateFunctionNode
-  props C06
+  props C06 C13
   option safety
   requires node != nil
   modifies *
@@ -187,7 +187,7 @@ func evaluateFunctionNode
   loop 1 invariant len(args) == len(node.Args) && node != nil
 
 func evaluateFunctionValue
-  props C06
+  props C06 C13
   option safety
   requires node != nil
   modifies *
